@@ -195,4 +195,33 @@ theorem text_fold (k : Kind) (ms : List (Name × Option Lit))
 
 example : LitForm ⟨some true, [5], none⟩ := ⟨⟨by decide, by decide⟩, by decide, rfl, by decide⟩
 
+/-- Calls made LATER on a table — the table a type statement was resolved to, reached through a leaf, a
+    typedef (chain), a union member … — continue the fold of the members that built it: the table after the
+    written members `a` followed by the calls `b` is the table of the one sequence `a ++ b`, and so are the
+    errors (the calls' errors numbered on from `a.length`).  With `fold_eq_rfc` / `fold_error_iff`: a member
+    added after resolution without a value gets one more than the highest value of ALL earlier members,
+    the written ones included.  (What `harness/cmd/corr-c14` path `post` checks of the Go tables.) -/
+theorem fold_resume (e : EnumType) (a b : List Member) :
+    (fold e (a ++ b)).1 = (fold (fold e a).1 b).1 ∧
+    (fold e (a ++ b)).2 = (fold e a).2 ++ (fold (fold e a).1 b).2.map fun p => (p.1 + a.length, p.2) := by
+  unfold fold
+  rw [Lemmas.Enum.foldFrom_append b a e 0, Lemmas.Enum.foldFrom_shift b (foldFrom e 0 a).1 0 a.length]
+  exact ⟨rfl, rfl⟩
+
+/-- A resolved table (written members `ws`, no error) on which the calls `cs` succeed holds exactly the RFC
+    assignment of `ws ++ cs`. -/
+theorem resolved_then_calls_eq_rfc (k : Kind) (ws cs : List (Name × Option Int))
+    (hw : (fold (new k) (ws.map toMember)).2 = [])
+    (hc : (fold (fold (new k) (ws.map toMember)).1 (cs.map toMember)).2 = []) :
+    assign k (ws ++ cs) = some (table (ws ++ cs)) ∧
+    (fold (fold (new k) (ws.map toMember)).1 (cs.map toMember)).1.toInt = (table (ws ++ cs)).reverse := by
+  have r := fold_resume (new k) (ws.map toMember) (cs.map toMember)
+  rw [← List.map_append] at r
+  have h : (fold (new k) ((ws ++ cs).map toMember)).2 = [] := by rw [r.2, hw, hc]; rfl
+  have q := fold_eq_rfc k (ws ++ cs) h
+  exact ⟨q.1, by rw [← r.1]; exact q.2.1⟩
+
+example : (fold (fold (new .enumeration) ([([97], none), ([98], none), ([99], some 7)].map toMember)).1
+    ([([110], none)].map toMember)).1.toInt = [([110], 8), ([99], 7), ([98], 1), ([97], 0)] := by decide
+
 end Goyang.Props.C14
